@@ -431,11 +431,16 @@ def handle (line : String) : String :=
           let comp ← match j.getObjVal? "compile" with
             | .ok (Json.bool true) => pure true
             | _ => pure false
+          let objs ← match j.getObjVal? "objects" with
+            | .ok o => do pure (some (← (← arr o).toList.mapM nat'))
+            | _ => pure Option.none
           let compiled (st : Rec.Graph → Rec.Cache → Rec.Local → Rec.Cache × Rec.Local) : Json :=
             if comp then
               Json.arr ((starts.foldl (fun (acc : Rec.Cache × List Json) n =>
                 let c' := Rec.analyseSeq st g fuel acc.1 n
-                (c', acc.2 ++ [Json.bool (Rec.compileDepth g c' (2 * g.length + 10) [] n).isSome])) ([], [])).2).toArray
+                (c', acc.2 ++ [Json.bool (match objs with
+                  | some os => (Rec.compileF g os c' (3 * g.length + 10) [] true n).isSome
+                  | Option.none => (Rec.compileDepth g c' (2 * g.length + 10) [] n).isSome)])) ([], [])).2).toArray
             else Json.null
           pure (Json.mkObj [("id", id), ("fixed", cj (Rec.history Rec.step g fuel starts)),
                             ("early", cj (Rec.history Rec.stepEarly g fuel starts)),
